@@ -14,7 +14,7 @@ CLAIMED = {
              "row written by the real _fill_gencost_poly / _add_linear_costs_as_pwl_cost / _map_costs_to_gen / _get_gen_index equals, as a "
              "polynomial identity in PG, the user's cost function at the element's own power; row filtering keeps gens/cost/signs aligned "
              "(side obligations). Piecewise-linear costs (costs_from_areas, _fill_gencost_pwl): same identity, bounded to 1..3 areas per "
-             "cost function (values symbolic). _get_costs: res_cost = ppc['obj'].",
+             "cost function (values symbolic). _get_costs: res_cost = ppc['obj']. _get_gen_index returns the gen row of the element's own label, None for elements without a row in ppci['gen'] (lookup -1), and addresses the auxiliary gen of a dcline by its index label; a linear polynomial entry next to pwl costs must evaluate to cp1 * p + cp0 (the code drops cp0 and the q terms: recorded known finding). Bounded native stand-in: AC / DC OPF problems with entries of out-of-service elements, constant and reactive terms, dcline costs with gen labels (3, 1).",
         note="Assumed: PYPOWER's documented evaluation of POLYNOMIAL / PW_LINEAR gencost rows; result power = sign * PG (C16); lookups map "
              "labels to gens injectively; the solver's objective is the sum of the row costs (A-SOLVE). Not decided: optimality (convex optimum "
              "clause), dcline q costs. Bounded stand-in: number of pwl areas <= 3."),
@@ -32,7 +32,7 @@ CLAIMED = {
              "a PQV area): after the real DERController._saturate the apparent power is within saturate_sn_mva (when active) and p >= 0; "
              "with only a PQV area q lies in the area's flexibility at the element's own p and vm and p is unchanged; the radicands of "
              "the saturation step are non-negative; BaseArea.in_area is 'q within q_flexibility'; _determine_target_powers (damping 1) "
-             "carries the bound to the written setpoints.",
+             "carries the bound to the written setpoints. Bounded native stand-in: grid of operating points through the real _saturate for every built-in area, whole controller runs with integer and float constant-Q models (in-place writes in machine arithmetic), Q(V) characteristics at their own break points.",
         note="Assumed: PQV area objects obey the BaseArea protocol (interval q_min <= q_max depending on the element's p, vm); numpy "
              "element-wise semantics. Not decided: shapely polygon areas and the VDE tables themselves, damping_coef > 1, Q models."),
     "C14": dict(
@@ -163,7 +163,7 @@ CLAIMED = {
              "sign*PG <= max_p + delta, same for Q, for every point), setpoints PG/QG = sign * p/q * scaling, the result written back "
              "is sign * PG of the element's own row; gens: PG, VG, Q box, non-controllable gens fixed at p_mw and vm_pu; the voltage "
              "range of a gen bus is the intersection of the bus limits and the gen's own min_vm_pu / max_vm_pu (own bus, own values); "
-             "only the element's block of ppc['gen'] is written. DC OPF (opf_setup, DC model, with stubs for the model object): the two flow constraints of a rated branch are Bf Va <= RATE_A/S_base - Pfinj and -Bf Va <= RATE_A/S_base + Pfinj (limit on the flow including the phase-shift offset), exactly on the rated branches. A bounded native stand-in checks that the OPF result of a lossy dcline is an operating point of the dcline model of the power flow.",
+             "only the element's block of ppc['gen'] is written. DC OPF (opf_setup, DC model, with stubs for the model object): the two flow constraints of a rated branch are Bf Va <= RATE_A/S_base - Pfinj and -Bf Va <= RATE_A/S_base + Pfinj (limit on the flow including the phase-shift offset), exactly on the rated branches. A bounded native stand-in checks that the OPF result of a lossy dcline is an operating point of the dcline model of the power flow. Non-controllable gens are fixed at p_mw * scaling (the set point of the power flow). Bounded native stand-in also: dcline losses with net.sn_mva = 10 / 100, voltage limits of buses fused by a bus-bus switch, a scaled non-controllable gen against a power flow with the OPF dispatch.",
         note="Assumed: A-SOLVE (the interior point solver returns a point of the box it is given), A-LOOKUP (block layout of "
              "ppc['gen']). Not decided: solver, branch loading / dcline / plain bus voltage constraints, DC OPF, power flow replay of "
              "the dispatch."),
@@ -270,7 +270,7 @@ CLAIMED = {
              "slack contribution factor handed to the solver is the element's own slack_weight; with sums over the machines at a "
              "bus as linear functionals, the real _split_p_for_gens_at_same_bus gives every reference machine of a shared reference "
              "bus the deviation (p_bus - sum of setpoints) * w / sum(w) and leaves the PV gens at their setpoints. The equalisation "
-             "across buses by the Newton iteration is only a bounded stand-in (native runs on three fixed networks), labelled bounded. _run_pf_algorithm: with distributed_slack the Newton-Raphson solver runs for every combination of bus types (the shortcut for networks of reference buses only ignores the weights).",
+             "across buses by the Newton iteration is only a bounded stand-in (native runs on three fixed networks), labelled bounded. _run_pf_algorithm: with distributed_slack the Newton-Raphson solver runs for every combination of bus types (the shortcut for networks of reference buses only ignores the weights). Bounded native stand-in also: a ring of reference buses only and five xward scenarios (several participating xwards, one out of service, table order descending in the bus, sgen / scaled load at the xward bus, enforce_q_lims with a gen at its limit): ratios and nodal balance at every bus.",
         note="Assumed: A-LOOKUP, linearity of finite sums. Not decided deductively: newtonpf with the slack variable, weight "
              "normalisation per island, xward result extraction."),
     "C21": dict(
@@ -278,7 +278,7 @@ CLAIMED = {
              "transformer / impedance, as a line only if it connects one voltage level and has tap ratio 0 or 1 and no phase shift "
              "(a branch with ratio or shift is never imported as a line); the created line has r * l = BR_R * Z_N, x alike, "
              "2 pi f c' 1e-9 l Z_N = BR_B and the branch status - the inverse of the per-unit line build (C02), so the round trip "
-             "reproduces the branch parameters. _from_ppc_gen: the created ext_grid / gen regulates to the VG of the ppc gen row it is created from (first-row-per-key theory for drop_duplicates; assumed contract of _gen_to_which: machines are the first gen rows of their buses).",
+             "reproduces the branch parameters. _from_ppc_gen: the created ext_grid / gen regulates to the VG of the ppc gen row it is created from (first-row-per-key theory for drop_duplicates; assumed contract of _gen_to_which: machines are the first gen rows of their buses). line:g - the conductance handed to create_lines is the whole branch conductance (inverse of the line build). Bounded native stand-in: round trips through the ppc dict and the MATPOWER file (line conductances, transformer iron losses, cost data with RATE_A = 0).",
         note="Assumed: create_lines_from_parameters stores its arguments; the line pi model. Not decided: transformer and impedance "
              "parameters, buses / gens / costs, to_ppc (the C02-contracted _pd2ppc), MATPOWER files, the power flow equality itself."),
     "C27": dict(
@@ -300,7 +300,7 @@ CLAIMED = {
              "elements of that connection type of all four tables, with the element's own phase power (one third of p, q for "
              "symmetric loads / sgens, generation negative). The agreement of runpp_3ph with runpp on symmetric networks (one with "
              "busbar sections fused by a bus-bus switch) and the per-phase balance at the fused node are a bounded stand-in (native "
-             "runs), labelled bounded.",
+             "runs), labelled bounded. _get_elements / _load_mapping: every in-service load / sgen is injected, through the delta transformation iff its type is 'delta' and phase-earth for every other value of the type column. Bounded native stand-in also: elements at the ext_grid bus (per-phase balance at the slack bus), an out-of-service ext_grid listed first, two ext_grids at one bus, sgens of type 'PV' / None.",
         note="Assumed: cos(120 deg) = -1/2, sin(120 deg) = sqrt(3)/2 for the module constants; np.matmul; _sum_by_group returns the "
              "distinct keys with the per-key sums; a store through distinct keys. Not decided: the sequence iteration of runpp_3ph, the "
              "zero-sequence network build, the nodal balance of the solution itself, the *_3ph result functions beyond the "
